@@ -206,6 +206,9 @@ func (c *Ctx) Max(name string, v int64) {
 	c.mu.Unlock()
 }
 
+// CtxMax keeps the maximum of a named gauge (name should start with "max_").
+func (cc *Case) CtxMax(name string, v int64) { cc.ctx.Max(name, v) }
+
 // Sample keeps a few example cases for the evidence file.
 func (cc *Case) Sample(v any) {
 	c := cc.ctx
